@@ -12,6 +12,7 @@ import NurbsVerif.Driver.Parse
             v:rat:pu:pv:pw:su:sv:sw:Uu:Uv:Uw:P:du:dv:dw
 -/
 namespace Drv
+namespace Ex
 open Geomdl Geomdl.Exch
 
 def showTok : Tok Rat → String
@@ -228,9 +229,9 @@ def handleExchange : List String → Option String
       match csvRead (parseFile f) with
       | some P => some (showPts P)
       | none => some "ERR"
-  | ["flip2d", f] => some (showSaved (flip2dFile (parseFile2 f)))
-  | ["w2d", f] => some (showSaved (weight2dFile (parseFile2 f)))
-  | ["uw2d", f] => some (showSaved (unweight2dFile (parseFile2 f)))
+  | ["flip2d-file", f] => some (showSaved (flip2dFile (parseFile2 f)))
+  | ["w2d-file", f] => some (showSaved (weight2dFile (parseFile2 f)))
+  | ["uw2d-file", f] => some (showSaved (unweight2dFile (parseFile2 f)))
   | "json-w" :: kind :: _ :: toks => do
       let x ← parseShapes kind toks
       return jShape (exportShapes x)
@@ -240,4 +241,7 @@ def handleExchange : List String → Option String
       return showShapes (importShapes ov (exportShapes x))
   | _ => none
 
+end Ex
+/-- handler of the exchange-format ops (C14) -/
+def handleExchange : List String → Option String := Ex.handleExchange
 end Drv
